@@ -225,6 +225,7 @@ var _ = token.NoPos
 func (p *Program) verifyLemma(name string) (enc *Enc, err error) {
 	lm := p.lemmas[name]
 	enc = newEnc(p)
+	enc.lemmaMode = true
 	defer func() {
 		if r := recover(); r != nil {
 			if te, ok := r.(trErr); ok {
